@@ -44,7 +44,7 @@ EXPECTED_PROBES = ["probe_get_ok", "probe_post_ok", "probe_unknown_path", "probe
                    "probe_handler_rebound_to_non_function", "probe_request_while_handler_is_not_a_function", "probe_post_with_query_string",
                    "probe_ws_send_mutated_dict", "probe_ws_two_connections",
                    "probe_second_web_server", "probe_request_to_second_web_server", "probe_other_web_server_after_webc", "probe_web_bind_address_text",
-                   "probe_handler_answers_a_live_dictionary"]
+                   "probe_handler_answers_a_live_dictionary", "probe_request_waits_45s_for_the_interpreter"]
 WALL_CAP = {"quick": 400, "thorough": 3600}
 PORT = 8080
 PORT2 = 8081
@@ -120,13 +120,20 @@ def scenario(ch, cfg):
     # with its own result, and the other evaluation still gets its own
     bgres = []
     inflight = {"bg": 0, "handler": 0}
+    long_eval = {"left": 1 if (bg and ch.draw(3, "long-evaluation") == 0) else 0}
 
     def bgy(x):
         if inflight["handler"]:
             stats["probe_klongloop_evaluation_started_inside_a_handler"] += 1
         inflight["bg"] += 1
-        for _ in range(40):
+        for i_ in range(40):
             w.yield_point("klongloop.work")    # an evaluation that takes a while (a timer callback flushing a table, a remote request)
+            if long_eval["left"] and i_ > 20 and pending_req["raw"] is not None:
+                # ... once per run a really long while: 45 virtual seconds pass with a request waiting for the interpreter;
+                # it is still served when the interpreter is free (nothing in the property puts a deadline on a request)
+                long_eval["left"] = 0
+                w.now += 45.0
+                stats["probe_request_waits_45s_for_the_interpreter"] += 1
         inflight["bg"] -= 1
         return 0
     srv.klong["bgy"] = bgy
@@ -602,7 +609,8 @@ JSON_VALUES = [1, 0, -7, 2.5, 0.0, "s", "", "é x", True, False, None, [], [1, 2
                "L" * 70000, list(range(30000))]      # two messages well above 64 KiB (a 70 kB text, a ~170 kB list)
 SEND_LITS = [("[1 2 3]", [1, 2, 3]), ('"hi"', "hi"), (':{["a" 1]}', {"a": 1}), ("42", 42), ("2.5", 2.5), ('["x" "y"]', ["x", "y"]),
              ("[[1 2] [3 4]]", [[1, 2], [3, 4]]), ('""', ""), ("1+1", 2), ("-7", -7), ("[5 6]@1", 6), ("2*3.5", 7.0),     # incl. computed numbers
-             (":{[1 2]}", {"1": 2}), (":{},(1+1),5", {"2": 5})]     # numeric dictionary keys (JSON object keys are their text), literal and computed
+             (":{[1 2]}", {"1": 2}), (":{},(1+1),5", {"2": 5}),
+             (':{["zero" 0] [1 "one"]}', {"zero": 0, "1": "one"}), (':{[2 "two"] ["k" [1 2]]}', {"2": "two", "k": [1, 2]})]     # numeric dictionary keys (JSON object keys are their text), literal and computed
 
 
 def scenario_ws(ch, cfg):
